@@ -180,6 +180,19 @@ def gen_location(rng, maxn=10):
         i = rng.randrange(n - 1)
         lon[i], lon[i + 1] = F(179) + F(1023, 1024), F(-179) - F(1023, 1024)
         lat[i] = lat[i + 1] = F(0)
+    if n >= 2 and rng.random() < 0.2:
+        # a track at high latitude, some hops along a meridian, some along a parallel (where cheap planar / spherical
+        # bounds on the geodesic length are least accurate); default box so that hop distance decides
+        lat0 = F(rng.choice([56, 62, 68, 75, 84, -58, -71]))
+        lon0 = F(rng.choice([10, -150, 179]))
+        lon, lat = [lon0], [lat0]
+        for _ in range(n - 1):
+            if rng.random() < 0.6:
+                lon.append(lon[-1]); lat.append(lat[-1] + rng.choice([1, F(1, 2), -1]) * (1 if abs(lat[-1]) < 85 else 0))
+            else:
+                lon.append(lon[-1] + rng.choice([1, -1, F(1, 4)])); lat.append(lat[-1])
+        lon = [x if x is None or -180 <= x <= 180 else x - 360 * (1 if x > 0 else -1) for x in lon]
+        box = list(DEFAULT_BOX)
     # keep latitudes inside [-90, 90] and longitudes finite for the geodesic routine
     hops = geodesic_hops(lon, lat)
     rm = None
@@ -187,8 +200,12 @@ def gen_location(rng, maxn=10):
     present = [h for h in hops if h is not None]
     if r < 0.3:
         rm = None
-    elif r < 0.7 and present:
+    elif r < 0.55 and present:
         rm = rng.choice(present)                 # exactly on a hop distance
+    elif r < 0.7 and present:
+        # a hair below / above a realised hop distance (relative 2^-12: inside the error of spherical or planar
+        # approximations of the WGS84 geodesic, far outside float64 rounding); comparisons only, exact rationals decide
+        rm = F(float(rng.choice(present)) * (1 + rng.choice([-1, 1]) * 2.0 ** -12))
     elif r < 0.8:
         rm = F(0)
     else:
@@ -285,7 +302,7 @@ def gen_climatology(rng, maxn=10):
     else:
         z = [None if rng.random() < 0.2 else rng.choice(zanch) + rng.choice([0, 0, H, -H, 1]) for _ in range(n)]
     return {"fn": "climatology", "members": members, "inp": inp, "t": t, "z": z,
-            "tkind": rng.choice(["iso", "stamp", "dt64"]), "clim_object": rng.choice([False, False, False, False, True, True, "grown", "grown"])}
+            "tkind": rng.choice(["iso", "stamp", "dt64", "us", "unpadded", "pydt"]), "clim_object": rng.choice([False, False, False, False, True, True, "grown", "grown"])}
 
 
 def gen_spike(rng, maxn=12):
